@@ -396,15 +396,19 @@ def fresh_results_standin(ctx):
     for method in ("sobol", "kgf"):
         for args in ((64, 3), (1, 5), (17,)):
             kw = {"method": method, "seed": 7}
-            a = np.array(quasirandom(*args, **kw), dtype=float, copy=True)
-            first = quasirandom(*args, **kw)
-            try:
-                first *= 2.0
-                first -= 1.0
-            except (TypeError, ValueError):
-                pass
-            again = np.asarray(quasirandom(*args, **kw), dtype=float)
             evals += 1
+            try:
+                a = np.array(quasirandom(*args, **kw), dtype=float, copy=True)
+                first = quasirandom(*args, **kw)
+                try:
+                    first *= 2.0
+                    first -= 1.0
+                except (TypeError, ValueError):
+                    pass
+                again = np.asarray(quasirandom(*args, **kw), dtype=float)
+            except Exception as e:  # noqa  -- an exception of the code under test on a valid call is a failing input, not a checker error
+                fails.append({"input": {"args": list(args), "method": method, "seed": 7}, "observed": {"raised": repr(e)[:200]}, "clause": "quasirandom returns for valid arguments", "key": "raises"})
+                continue
             if again.shape != a.shape or not np.array_equal(again, a):
                 fails.append({"input": {"args": list(args), "method": method, "seed": 7, "history": "call, rescale the returned array in place, call again"},
                               "observed": {"second_call_min": float(np.min(again)), "second_call_max": float(np.max(again)), "equal_to_first_call": False},
@@ -614,7 +618,7 @@ def front_end(ctx, f_front):
                     for j, (got, exp) in enumerate(zip(v[2], argf())):
                         ctx.prove(f"{ident}/arg{j}/path{k}", r.pc, got == exp, clause=cl, replay=rp, fn=f_front)
             ctx.safety(ident, res, fn=f_front)
-        ctx.attempt(ident, ob)
+        ctx.attempt(ident, ob, replay=replay_for(method, batch), fn=f_front)
 
 
 # =====================================================================================================================
